@@ -37,6 +37,10 @@ Lemma penalize_wf p r (u : ust) :
   xwf (fst r) /\ u_ic1 (x_u (fst r)) = u_ic1 u ->
   xwf (fst (fmb_penalize p r)) /\ u_ic1 (x_u (fst (fmb_penalize p r))) = u_ic1 u.
 Proof. unfold fmb_penalize. destruct (kd_ended (snd r)); intros H; exact H. Qed.
+Lemma penalize_elapse_wf p r (u : ust) :
+  xwf (fst r) /\ u_ic1 (x_u (fst r)) = u_ic1 u ->
+  xwf (fst (fmb_penalize_elapse p r)) /\ u_ic1 (x_u (fst (fmb_penalize_elapse p r))) = u_ic1 u.
+Proof. unfold fmb_penalize_elapse. destruct (kd_ended (snd r)); intros H; exact H. Qed.
 
 Lemma xwf_preserved c m p t s s' es :
   xwf s -> xwf_par c m p t s -> xreduce_spec c m p t s = Some (s', es) ->
@@ -58,7 +62,7 @@ Proof.
   - (* barrage use *)
     apply (lift_wf KeydownSkill MUse (use_keydown_trait (xp p)) (xp p) t s eq_refl eq_refl W Wp Ht).
   - (* barrage elapse *)
-    unfold fmb_elapse. apply penalize_wf.
+    unfold fmb_elapse. apply penalize_elapse_wf.
     apply (lift_wf KeydownSkill MElapse (elapse_keydown_trait (xp p) t) (xp p) t (set_l2 s (fst (x_l2 s) - t, snd (x_l2 s))) eq_refl eq_refl W Wp Ht).
   - (* barrage stop *)
     unfold fmb_stop. apply penalize_wf.
@@ -149,10 +153,3 @@ Proof.
   split. { unfold xwf, wf_ust, P.wf, C.wf, K.wf, DP.wf. cbn. lia. }
   repeat split; vm_compute; reflexivity.
 Qed.
-
-(* FullMetalBarrage on the refutation's witness: the key-down part agrees, the penalty does not *)
-Example barrage_witness :
-  x_l2 (fst (fmb_elapse fmb_par 900 (fst (fmb_elapse fmb_par 100 fmb_state)))) = (1100, 2000) /\
-  x_l2 (fst (fmb_elapse fmb_par 1000 fmb_state)) = (2000, 2000) /\
-  x_u (fst (fmb_elapse fmb_par 900 (fst (fmb_elapse fmb_par 100 fmb_state)))) = x_u (fst (fmb_elapse fmb_par 1000 fmb_state)).
-Proof. repeat split; vm_compute; reflexivity. Qed.
